@@ -36,6 +36,31 @@ func msCons(r *rand.Rand, n int, wcnf bool) gen.M {
 	return c
 }
 
+// wcnfCase wraps weighted clauses into a WCNF case: declared variable count >= highest variable
+// used, top weight present whenever there is a hard clause.
+func wcnfCase(r *rand.Rand, n int, cons []gen.M) gen.M {
+	c := gen.M{"drv": "maxsat", "route": "wcnf", "cons": cons,
+		"cfg": gen.M{"layout": 0, "layoutSeed": 0, "cap": r.Intn(3)}}
+	c["n"] = n + r.Intn(3)
+	top := 0
+	hasHard := false
+	maxW := 0
+	for _, k := range cons {
+		if k["weight"].(int) == 0 {
+			hasHard = true
+		}
+		if k["weight"].(int) > maxW {
+			maxW = k["weight"].(int)
+		}
+	}
+	if hasHard || r.Intn(2) == 0 {
+		top = maxW + 1 + r.Intn(3)
+	}
+	c["top"] = top
+	c["ev"] = []gen.M{gen.OpChan("optimal", r.Intn(2) == 0)}
+	return c
+}
+
 func init() {
 	register(&core.Check{
 		ID:          "C04",
@@ -54,25 +79,7 @@ func init() {
 				c := gen.M{"drv": "maxsat", "n": n, "cons": cons, "top": 0,
 					"cfg": gen.M{"layout": 0, "layoutSeed": 0, "cap": r.Intn(3)}}
 				if wcnf {
-					c["route"] = "wcnf"
-					n += r.Intn(3) // declared variable count >= highest variable used
-					c["n"] = n
-					top := 0
-					hasHard := false
-					maxW := 0
-					for _, k := range cons {
-						if k["weight"].(int) == 0 {
-							hasHard = true
-						}
-						if k["weight"].(int) > maxW {
-							maxW = k["weight"].(int)
-						}
-					}
-					if hasHard || r.Intn(2) == 0 {
-						top = maxW + 1 + r.Intn(3)
-					}
-					c["top"] = top
-					c["ev"] = []gen.M{gen.OpChan("optimal", r.Intn(2) == 0)}
+					c = wcnfCase(r, n, cons)
 				} else {
 					c["route"] = "api"
 					c["ev"] = []gen.M{gen.Op("solve")}
